@@ -29,6 +29,16 @@ theorem bloom_consts :
 theorem default_bloom_k : Consts.defaultBitsPerKey = 10 ∧ Bloom.kOf Consts.defaultBitsPerKey = 6 := by decide
 theorem display_writes_err : Consts.displayWritesErr = true := by decide
 
+/-- the status code list of error.rs is the model's, in order -/
+theorem status_codes : Consts.statusCodes = Code.all.map Code.name := by decide
+/-- on-disk names (LevelDB's) and defaults of options.rs -/
+theorem names_and_defaults :
+    Consts.bloomName = "leveldb.BuiltinBloomFilter2" ∧ Consts.noFilterName = "_"
+      ∧ Consts.defaultCmpId = "leveldb.BytewiseComparator" ∧ Consts.defaultCompression = "CompressionNone"
+      ∧ Consts.defaultBlockSize = 4096 ∧ Consts.defaultRestartInterval = 16 := by decide
+theorem policy_names : (Bloom.policy 10).name = Consts.bloomName ∧ noFilterPolicy.name = Consts.noFilterName :=
+  ⟨rfl, rfl⟩
+
 /-- CRC-32C check value of the catalogue ("123456789" ↦ 0xE3069283) -/
 theorem crc_check_value : crc32c [0x31,0x32,0x33,0x34,0x35,0x36,0x37,0x38,0x39] = 0xE3069283 := by decide +kernel
 /-- LevelDB's `crc32c::Mask` on a known value: Mask(0) = kMaskDelta -/
